@@ -120,6 +120,9 @@ type c19Script struct {
 	layout bool
 	cfg    c19Cfg
 	run    string // "none" | "built" | "parsed"
+	// an EARLIER AutoLayout on the same builder (with this configuration), before the one with `cfg`: the diagram of the
+	// result is the one of the last call
+	first *c19Cfg
 }
 
 func c19Tok(s string) string {
@@ -372,6 +375,12 @@ func c19Case(out *rec.Out, sc c19Script, stats map[string]int) {
 			out.Line("s out")
 			db.AddProcess(*pb.Out())
 			stats[fmt.Sprintf("activities_%02d", len(acts))]++
+		}
+		if sc.layout && sc.first != nil {
+			f := *sc.first
+			out.Line("s layoutwith %s %s %s %s %s", c19U(f.sx), c19U(f.sy), c19U(f.cg), c19U(f.rg), c19U(f.pg))
+			db.AutoLayout(&schema.AutoLayoutConfig{StartX: f.sx, StartY: f.sy, ColumnGap: f.cg, RowGap: f.rg, ProcessGap: f.pg})
+			stats["layout_twice"]++
 		}
 		if sc.layout {
 			out.Line("s layout")
@@ -667,7 +676,13 @@ func c19(out *rec.Out, rng *rec.Rng, tier string, stats map[string]int) {
 		if eng && (tier == "thorough" || c%3 == 0) {
 			run = runMode(c)
 		}
-		emit(c19Script{procs: procs, reuse: rng.Bool(), layout: rng.Intn(8) != 0, cfg: c19RandCfg(rng), run: run})
+		sc := c19Script{procs: procs, reuse: rng.Bool(), layout: rng.Intn(8) != 0, cfg: c19RandCfg(rng), run: run}
+		if c%3 == 1 {
+			// the builder is laid out twice (README: lay out, look, change the spacing, lay out again)
+			f := c19RandCfg(rng)
+			sc.first = &f
+		}
+		emit(sc)
 	}
 	// (5) id stress
 	calls, builds := 300000, 300
